@@ -69,8 +69,13 @@ gunicorn.http.wsgi.HEADER_VALUE_RE gunicorn.util.hop_headers gunicorn.arbiter.Ar
 
 
 def verify(repo):
+    """anchors missing from the tree.  Small helpers that the normal form folds into their callers
+    (inline.ALWAYS_EXPAND) are not anchors: no rule names them any more."""
+    from .inline import ALWAYS_EXPAND
     missing = []
     for q in FUNCS:
+        if q in ALWAYS_EXPAND:
+            continue
         if not repo.has_func(q):
             missing.append(q)
     for q in CLASSES:
